@@ -652,6 +652,22 @@ class SymInt:
         needs a constant multiplier instead of a divider circuit"""
         ex = CUR
         qlo, qhi = self.lo // o, self.hi // o
+        if qhi - qlo <= 8:
+            # few possible quotients (typical of modular reduction after an addition): comparisons instead of a multiplier
+            q = qlo
+            sub = qlo * o
+            for m in range(qlo + 1, qhi + 1):
+                ge = self >= m * o
+                q = q + ite(ge, 1, 0)
+                sub = sub + ite(ge, o, 0)
+            r = self - sub
+            if isinstance(r, SymInt):
+                r = mk_int(r.e, max(r.lo, 0), min(r.hi, o - 1)) if not r.inx else r
+            if want == "q":
+                return q
+            if want == "r":
+                return r
+            return (q, r)
         rlo, rhi = (0, o - 1) if qlo != qhi else (min(self.lo - qlo * o, self.hi - qlo * o), max(self.lo - qlo * o, self.hi - qlo * o))
         wq = need(qlo, qhi)
         wr = need(0, o - 1)
